@@ -738,8 +738,13 @@ def check_matching_pairs(rep, repo, f):
                     return
             from_row = contains(el, lambda x: x == row)
             other_rows = contains(el, lambda x: x[0] == 'idx' and x[1] == A(lp.MODEL, 'pairs') and x[2] != b)
+            # every look at the row uses the scan position itself: row[j] tested and row[j] taken (row[j + 1] is another entry)
+            subs = {x[2] for x in walk(el) if x[0] == 'idx' and x[1] == row}
+            shifted = [k_ for k_ in subs if k_[0] == 'bin']
             if not guard_ok:
                 why = 'entries are produced when %s, expected: project number != 0' % show(g)
+            elif shifted or len(subs) > 1:
+                why = 'the entry that is tested and the entry that is taken are row[%s]: not one and the same scan position' % ', '.join(sorted(show(k_) for k_ in subs))
             elif not cands:
                 why = 'the pair is not selected by projectID == the enumerated project number'
             elif not from_row or other_rows:
